@@ -313,9 +313,9 @@ func runR153(c *Ctx) {
 			c.Broken("buffer.%s not found", spec.typ)
 			continue
 		}
-		lock := structField(n, "lock")
+		lock := mutexField(n, "lock")
 		if lock == nil {
-			c.Broken("%s.lock not found", spec.typ)
+			c.Broken("%s: mutex field not found", spec.typ)
 			continue
 		}
 		var guards []LockGuard
@@ -329,7 +329,7 @@ func runR153(c *Ctx) {
 		}
 		ls := &LockSpec{RuleID: c.rule.ID, Pkg: c.Pkg(bufferRel), Lock: lock, Guards: guards,
 			InScope:          func(fd *ast.FuncDecl, recv *types.Named) bool { return recv != nil && recv.Obj() == n.Obj() },
-			IsEntry:          func(fd *ast.FuncDecl) bool { return fd.Name.Name != "readAndShareWithOthers" },
+			IsEntry:          entryPolicy(c.LookupType(bufferRel, "Buffer"), c.LookupType(bufferRel, "ChunkReader")),
 			NoBlockWhileHeld: true,
 		}
 		la := newLockAnalysis(c.Program, ls)
